@@ -9,9 +9,10 @@ def H(name, bounds="", reach=(), native=True, thorough_only=False, quick=None, t
 
 Q = {"budget": "150s", "timeout": 400}
 T = {"budget": "12m", "timeout": 1500, "max-paths": 600000}
+TD = {"budget": "22m", "timeout": 2700, "max-paths": 1500000}
 TC = {"budget": "20m", "timeout": 2400, "max-paths": 1500000}
 
-TSTATE_BOUNDS = "one checkOnce from a fresh T; property = any program of k<=3 (quick) / 4 (thorough) opcodes over {return, draw, Errorf, Fail, Fatalf, FailNow, panic(string), panic(error), nil dereference, Skip, Cleanup(sub), Context, Custom(sub)} with a 2-opcode sub-program for callbacks; buffer stream of 4 symbolic words"
+TSTATE_BOUNDS = "one checkOnce from a fresh T; property = any program of 3 opcodes (quick) over {return, draw, Errorf, Error() with an empty message, panic(nil), Fail, Fatalf, FailNow, panic(string), panic(error), nil dereference, Skip, Cleanup(sub), Context, Custom(sub)} / of 4 opcodes (thorough) over the same alphabet without Fail, FailNow and panic(error); 2-opcode sub-program for callbacks (+1 opcode for a nested cleanup); buffer stream of 4 symbolic words"
 TSTATE_REACH = ["passed", "signalled", "skipped", "overrun"]
 C10_REACH = TSTATE_REACH + ["custom-retried"]
 ENGINE_ASSUME = ["sync.RWMutex/Mutex/Once, atomic.Bool/Value modelled as sequential state machines that report misuse (deadlock, unlock of unlocked)",
@@ -225,7 +226,7 @@ PROPS = {
     },
     "C02": {
         "level": "model_checking",
-        "harnesses": [H("H_C02_checkOnce", TSTATE_BOUNDS, reach=TSTATE_REACH, quick=Q, thorough=T),
+        "harnesses": [H("H_C02_checkOnce", TSTATE_BOUNDS, reach=TSTATE_REACH, quick=Q, thorough=TD),
                       H("H_C09_failfileFlaky", "real checkTB with a valid fail file present and a property whose outcome per invocation is chosen by the solver (fails on the first replay, passes on the second, ...): a falsified invocation always fails the test", reach=["falsified", "failfile-falsified"], native=False, quick=Q, thorough=T),
                       H("H_C02_lateGoroutine", "real findBug with 2 test cases in the executor's concurrent mode: test case 1 starts a goroutine that calls t.Errorf on its *T at any later point (every interleaving, <=2 preemptions) up to the middle of test case 2, which waits for it; Check must report a failure", reach=["signal-seen-by-the-next-test-case", "signal-seen-by-its-own-test-case"], quick=Q, thorough=T, race=True, nodiff=True),
                       H("H_C09_findBugStep", "one iteration of findBug from any loop state with a symbolic clock: a test case that ran and falsified the property is never dropped (see C09)", reach=["iterated", "failed", "early-exit"], quick=Q, thorough=T, search=["valid0", "invalid0", "checks"], search_any=True, step_confirm_in_executor=True)],
@@ -233,12 +234,12 @@ PROPS = {
     },
     "C10": {
         "level": "model_checking",
-        "harnesses": [H("H_C10_checkOnce", TSTATE_BOUNDS + "; every call of a Custom generator function, retries included, is an invocation of its own", reach=C10_REACH, quick=Q, thorough=T)],
+        "harnesses": [H("H_C10_checkOnce", TSTATE_BOUNDS + "; every call of a Custom generator function, retries included, is an invocation of its own", reach=C10_REACH, quick=Q, thorough=TD)],
         "assumptions": ENGINE_ASSUME,
     },
     "C11": {
         "level": "model_checking",
-        "harnesses": [H("H_C11_checkOnce", TSTATE_BOUNDS, reach=TSTATE_REACH, quick=Q, thorough=T),
+        "harnesses": [H("H_C11_checkOnce", TSTATE_BOUNDS, reach=TSTATE_REACH, quick=Q, thorough=TD),
                       H("H_C11_twoCases", "two test cases in a row: the first any program of 2 opcodes (+2-opcode callbacks) over the same alphabet on 4 symbolic words, the second a fixed benign case using draws, a Custom generator, the context and cleanups - on the same T when it is reused, on a fresh one otherwise; the second must pass (state outside the T - pools, package variables - included)", reach=["first-failed", "first-reusable"], quick=Q, thorough=T)],
         "assumptions": ENGINE_ASSUME,
     },
